@@ -18,7 +18,7 @@ ID = "C08"
 LEVEL = "exploration"
 REQUIRED_CLASSES = ["geometry-ok", "params-ok"]
 RULE = ("geometry: sizes^3 x resolutions^3 x target chunk sizes x max_scales "
-        "(quick: 5 sizes, 7 resolutions, targets {2,64}; thorough: 7 sizes, "
+        "(quick: 5 sizes, 7 resolutions, targets {2,64}, max_scales None and for a quarter of the geometries 1..3; thorough: 7 sizes, "
         "11 resolutions, 6 targets, max_scales {None,3}; a fixed 1/50 slice "
         "additionally goes through generate_scales_info end to end); "
         "magnitude family: 48 axis lengths 2^k+j (k up to 40, j in {-1,0,1,3,"
@@ -525,6 +525,12 @@ def run_unit(u):
                         n += 1
                         _eval_geometry(col, size, res, target, m,
                                        via_file=(n % 50 == 0))
+                        if u["tier"] == "quick" and n % 4 == 1:
+                            # quick: a quarter of the geometries also with
+                            # a limit on the number of scales
+                            _eval_geometry(col, size, res, target,
+                                           1 + (n // 4) % 3,
+                                           via_file=(n % 100 == 1))
         col.sample(_case((u["sx"], u["sy"], sizes[-1]),
                          (ress[0], ress[1], ress[-1]), targets[-1], None))
     else:
